@@ -98,6 +98,38 @@ example : tnFreq exCounts 2 * tnFreq exCounts 3 ≠ 0 ∧ tnFreq exCounts 1 * tn
     (C15Dist.tn93_from_matrix exCounts vzero [2, 3] [1, 0] [11, 14] [1, 4] [2, 3, 6, 7, 8, 9, 12, 13]).isSome = true := by
   decide +kernel
 
+/-- `TN93Pair.__init__` as translated (`get_matrix_diff_coords` of the purine / pyrimidine indices, the `remove` loop that leaves
+the transversion coordinates, the `i * 4 + j` flattening, the order of `_func_args`), on the index lists of DNA/RNA
+(`get_purine_indices` = [2, 3], `get_pyrimidine_indices` = [1, 0], compared with the real ones on every run) and `_dim` = 4,
+yields exactly these constants -/
+theorem gen_tn93_func_args :
+    C15Dist.tn93_func_args [2, 3] [1, 0] 4 = ([2, 3], [1, 0], [11, 14], [4, 1], [2, 3, 6, 7, 8, 9, 12, 13]) := by decide +kernel
+
+example : (C15Dist.tn93_func_args [2, 3] [1, 0] 4).2.2.2.2.length = 8 := by decide +kernel
+
+/-- `gen_tn93_eq` with the arguments `TN93Pair.__init__` itself computes (`self.func(matrix, *self._func_args)`): the translated
+constructor composed with the translated `_tn93_from_matrix` is the hand model `tn93Stat` -/
+theorem gen_tn93_eq_init (m : M4) (fr : V4)
+    (h1 : tnFreq m 2 * tnFreq m 3 ≠ 0) (h2 : tnFreq m 1 * tnFreq m 0 ≠ 0)
+    (h3 : tnFreq m 2 + tnFreq m 3 ≠ 0) (h4 : tnFreq m 1 + tnFreq m 0 ≠ 0) :
+    Res.Same (C15Dist.tn93_from_matrix m fr (C15Dist.tn93_func_args [2, 3] [1, 0] 4).1 (C15Dist.tn93_func_args [2, 3] [1, 0] 4).2.1
+        (C15Dist.tn93_func_args [2, 3] [1, 0] 4).2.2.1 (C15Dist.tn93_func_args [2, 3] [1, 0] 4).2.2.2.1
+        (C15Dist.tn93_func_args [2, 3] [1, 0] 4).2.2.2.2)
+      (ofStat (tn93Stat m)) := by
+  rw [gen_tn93_func_args]
+  unfold C15Dist.tn93_from_matrix tn93Stat
+  simp only [msum_eq, tn_freqs, take_pur, take_pyr', take_tv, take_all', vt_sum, vt_prod]
+  by_cases h : total m = 0
+  · simp [h, ofStat, Res.Same]
+  · simp only [h, if_false, h1, h2, h3, h4, ne_eq, not_false_eq_true, true_and, and_self, or_self]
+    split
+    · simp [ofStat, Res.Same]
+    · simp [ofStat, Res.Same]
+
+example : (C15Dist.tn93_from_matrix exCounts vzero (C15Dist.tn93_func_args [2, 3] [1, 0] 4).1 (C15Dist.tn93_func_args [2, 3] [1, 0] 4).2.1
+    (C15Dist.tn93_func_args [2, 3] [1, 0] 4).2.2.1 (C15Dist.tn93_func_args [2, 3] [1, 0] 4).2.2.2.1
+    (C15Dist.tn93_func_args [2, 3] [1, 0] 4).2.2.2.2).isSome = true := by decide +kernel
+
 /-- `_logdetcommon` (the part shared by paralinear and LogDet: validity, the 0.5 pseudo-count on empty diagonal
 cells, normalisation, `det(frequency) <= 0`) is the model's `logdetCommon`, for every continuation `k` -/
 theorem gen_logdetcommon_eq (m : M4) (k : Rat → Rat → M4 → Stat) :
